@@ -48,7 +48,7 @@ Print Assumptions C09_byte_len_fits.
     /Index [0 n]) to exactly the table that was written: every entry, in order, nothing left over. *)
 Theorem C09_xref_roundtrip : forall es aw bw data,
   table_in_range es -> write_stream es (lenN es) = Ok (aw, bw, data) ->
-  read_section 0 (lenN es) 1 aw bw data = Ok ((0, es), []) /\ aw <= 8 /\ bw <= 8.
+  read_section 0 (lenN es) 1 aw bw data = Ok ((0, es), []) /\ aw <= 8 /\ bw <= 8 /\ lenN data = lenN es * (1 + aw + bw).
 Proof. exact write_stream_roundtrip. Qed.
 Print Assumptions C09_xref_roundtrip.
 
